@@ -22,6 +22,8 @@
 (*   [k |-> "out", idx, t, a, b, kind, valOK]            one output         *)
 (*   [k |-> "end", wdOK, shapeOK]                        integrate returned *)
 (*   [k |-> "abort"]                                     watchdog expired   *)
+(*   [k |-> "cut"]                                       rest of a long     *)
+(*                                                       trace not shown    *)
 (* A trace is accepted iff every event satisfies all clauses and the last   *)
 (* event is "end"; otherwise the index of the first bad event and the names *)
 (* of the failing clauses are printed.                                      *)
@@ -96,6 +98,7 @@ Clauses(e) == CASE e.k = "fstep" -> FStepClauses(e)
                 [] e.k = "trial" -> TrialClauses(e)
                 [] e.k = "out"   -> OutClauses(e)
                 [] e.k = "end"   -> EndClauses(e)
+                [] e.k = "cut"   -> { <<"Last", i = Len(Ev)>> }     \* long trace: validated up to here
                 [] OTHER         -> { <<"Terminates", FALSE>> }
 Bad(e) == {c[1] : c \in {x \in Clauses(e) : ~x[2]}}
 
@@ -117,8 +120,8 @@ Consume ==
          bad == Bad(e)
      IN IF bad = {}
           THEN /\ Advance(e) /\ i' = i + 1
-               /\ status' = IF e.k = "end" THEN "ok" ELSE "run"
-               /\ (e.k = "end") => /\ TLCSet(1, TLCGet(1) + 1)
+               /\ status' = IF e.k \in {"end", "cut"} THEN "ok" ELSE "run"
+               /\ (e.k \in {"end", "cut"}) => /\ TLCSet(1, TLCGet(1) + 1)
                                    /\ PrintT("@@" \o ToJson([tid |-> Log[tid].tid, ok |-> TRUE, at |-> i, bad |-> <<>>]))
           ELSE /\ status' = "bad" /\ i' = i
                /\ PrintT("@@" \o ToJson([tid |-> Log[tid].tid, ok |-> FALSE, at |-> i, bad |-> SetToSeq(bad)]))
